@@ -142,27 +142,92 @@ PRODUCT_TABLE = {
 
 
 def check_product_accepting(ctx, rep, f):
-    """dfa_product: for each product type, the pairs selected as accepting are OR / AND / XOR of the components"""
-    # operand aliases
+    """dfa_product: for each product type, the pairs selected as accepting are OR / AND / XOR of the components.  The body is
+    followed with product_type fixed to each of the three values; the selecting condition (inline, or a local helper
+    predicate) is evaluated for the four combinations of (q1 in F1, q2 in F2)."""
     p1, p2 = f.pos_params[0].arg, f.pos_params[1].arg
-    fx = ctx.facts(f)
+    tparam = f.pos_params[2].arg if len(f.pos_params) > 2 else 'product_type'
     seen = set()
-    for st in walk_no_nested(f.node):
-        if not (isinstance(st, ast.Assign) and len(st.targets) == 1 and isinstance(st.targets[0], ast.Name)):
+
+    def aliases(fn, which):
+        out = {which + '.F'}
+        for g in [f] + list(f.nested.values()):
+            for st in walk_no_nested(g.node):
+                if isinstance(st, ast.Assign) and len(st.targets) == 1 and isinstance(st.targets[0], ast.Name) and u(st.value) == which + '.F':
+                    out.add(st.targets[0].id)
+        return out
+    al1, al2 = aliases(f, p1), aliases(f, p2)
+
+    def atoms_for(v1, v2, b1, b2):
+        atoms = {}
+        for s_ in al1:
+            atoms['{} in {}'.format(v1, s_)] = b1
+            atoms['{} not in {}'.format(v1, s_)] = not b1
+        for s_ in al2:
+            atoms['{} in {}'.format(v2, s_)] = b2
+            atoms['{} not in {}'.format(v2, s_)] = not b2
+        return atoms
+
+    def eval_cond(cond, v1, v2, b1, b2, kind):
+        # a call of a local predicate: evaluate its body with its parameters standing for the pair
+        if isinstance(cond, ast.Call) and isinstance(cond.func, ast.Name) and cond.func.id in f.nested and len(cond.args) == 2 and [u(a) for a in cond.args] == [v1, v2]:
+            h = f.nested[cond.func.id]
+            ps = [p for p in h.params]
+            atoms = atoms_for(ps[0], ps[1], b1, b2)
+
+            def run(stmts):
+                for st in stmts:
+                    if isinstance(st, ast.If):
+                        r = run(st.body) if abseval.ev(st.test, {tparam: kind}, atoms) else run(st.orelse)
+                        if r is not None:
+                            return r
+                    elif isinstance(st, ast.Return):
+                        return ('ret', bool(abseval.ev(st.value, {tparam: kind}, atoms)))
+                    elif isinstance(st, (ast.Expr, ast.Pass)):
+                        continue
+                    else:
+                        raise Unsupported('statement ' + type(st).__name__)
+                return None
+            r = run(h.node.body)
+            if r is None:
+                raise Unsupported('predicate returns nothing')
+            return r[1]
+        return bool(abseval.ev(cond, {tparam: kind}, atoms_for(v1, v2, b1, b2)))
+
+    def find_selection(stmts, kind):
+        """the comprehension with a condition that is assigned on the path taken for this product type"""
+        for st in stmts:
+            if isinstance(st, ast.If):
+                try:
+                    t = abseval.ev(st.test, {tparam: kind})
+                except Unsupported:
+                    continue
+                r = find_selection(st.body if t else st.orelse, kind)
+                if r is not None:
+                    return r
+                continue
+            if isinstance(st, ast.Raise):
+                return ('raise', st)
+            if isinstance(st, ast.Assign) and len(st.targets) == 1 and isinstance(st.targets[0], ast.Name):
+                v = st.value
+                comp = None
+                if isinstance(v, ast.Call) and isinstance(v.func, ast.Name) and v.func.id in ('list', 'set') and len(v.args) == 1 and isinstance(v.args[0], (ast.GeneratorExp, ast.ListComp, ast.SetComp)):
+                    comp = v.args[0]
+                elif isinstance(v, (ast.ListComp, ast.SetComp)):
+                    comp = v
+                if comp is not None and comp.generators and comp.generators[0].ifs:
+                    return ('comp', st, comp)
+        return None
+
+    for kind in PRODUCT_TABLE:
+        sel = find_selection(f.node.body, kind)
+        if sel is None:
+            rep.undecided(RULE + '.M1', f, 'product ' + kind, "selection of the accepting pairs for '{}' not found".format(kind))
             continue
-        v = st.value
-        comp = None
-        if isinstance(v, ast.Call) and isinstance(v.func, ast.Name) and v.func.id in ('list', 'set') and len(v.args) == 1 and isinstance(v.args[0], (ast.GeneratorExp, ast.ListComp, ast.SetComp)):
-            comp = v.args[0]
-        elif isinstance(v, (ast.ListComp, ast.SetComp)):
-            comp = v
-        if comp is None or not comp.generators or not comp.generators[0].ifs:
+        if sel[0] == 'raise':
+            rep.violates(RULE + '.M1', f, sel[1], "the product type '{}' is rejected".format(kind))
             continue
-        nid = fx.cfg.n_of(st)
-        ptypes = [a for a in fx.guard_atoms(nid) if a[0] == 'eq' and a[3] is True and a[2].strip("'\"") in PRODUCT_TABLE]
-        if not ptypes:
-            continue
-        kind = ptypes[-1][2].strip("'\"")
+        _, st, comp = sel
         seen.add(kind)
         g = comp.generators[0]
         tgt = g.target
@@ -171,41 +236,23 @@ def check_product_accepting(ctx, rep, f):
             continue
         v1, v2 = u(tgt.elts[0]), u(tgt.elts[1])
         cond = g.ifs[0] if len(g.ifs) == 1 else ast.BoolOp(op=ast.And(), values=list(g.ifs))
-        # which set is F1 / F2: aliases of <p1>.F and <p2>.F
-        al1 = {p1 + '.F'} | {n for n in names_in(cond) if any(u(d) == p1 + '.F' for d in single_def(f, n))}
-        al2 = {p2 + '.F'} | {n for n in names_in(cond) if any(u(d) == p2 + '.F' for d in single_def(f, n))}
         try:
-            ok = True
+            bad = None
             for b1 in (False, True):
                 for b2 in (False, True):
-                    atoms = {}
-                    for s in al1:
-                        atoms['{} in {}'.format(v1, s)] = b1
-                        atoms['{} not in {}'.format(v1, s)] = not b1
-                        atoms['{} in {}'.format(v2, s)] = None
-                    for s in al2:
-                        atoms['{} in {}'.format(v2, s)] = b2
-                        atoms['{} not in {}'.format(v2, s)] = not b2
-                    # cross atoms (q2 in F1, q1 in F2) are not part of any product definition
-                    atoms = {k: v for k, v in atoms.items() if v is not None}
-                    got = bool(abseval.ev(cond, {}, atoms))
+                    got = eval_cond(cond, v1, v2, b1, b2, kind)
                     want = PRODUCT_TABLE[kind]({'F1': b1, 'F2': b2})
-                    if got != want:
-                        ok = False
-                        rep.violates(RULE + '.M1', f, st, "accepting pairs of the '{}' product: for ({} in F1)={}, ({} in F2)={} the pair is {} but must be {}".format(
-                            kind, v1, b1, v2, b2, 'accepting' if got else 'rejecting', 'accepting' if want else 'rejecting'))
-                        break
-                if not ok:
-                    break
-            if ok:
-                rep.holds(RULE + '.M1', f, st, "truth table of the accepting condition of the '{}' product equals {} (4 rows)".format(
+                    if got != want and bad is None:
+                        bad = (b1, b2, got, want)
+            if bad:
+                b1, b2, got, want = bad
+                rep.violates(RULE + '.M1', f, st, "accepting pairs of the '{}' product: for ({} in F1)={}, ({} in F2)={} the pair is {} but must be {}".format(
+                    kind, v1, b1, v2, b2, 'accepting' if got else 'rejecting', 'accepting' if want else 'rejecting'))
+            else:
+                rep.holds(RULE + '.M1', f, 'product ' + kind, "truth table of the accepting condition of the '{}' product equals {} (4 rows)".format(
                     kind, {'union': 'OR', 'intersection': 'AND', 'symmetric_difference': 'XOR'}[kind]))
         except Unsupported as e:
             rep.undecided(RULE + '.M1', f, st, 'condition outside the boolean fragment: {}'.format(e))
-    for k in PRODUCT_TABLE:
-        if k not in seen:
-            rep.violates(RULE + '.M1', f, 'def ' + f.name, "no accepting-set definition found for product type '{}'".format(k))
-    # the selected pairs become the accepting states: F of the constructor derives from final_states
     return len(seen)
 
 
